@@ -14,7 +14,11 @@ PRELUDES = [
     [["create", 0, "CBlocks", "B", "t", []], ["create", 1, "CSources", "a", "t", []], ["create", 2, "CSources", "b", "t", []],
      ["create", 3, "CSources", "a", "t", []], ["create", 1, "CSources", "b", "t", []], ["create", 5, "CSources", "a", "t", []],
      ["create", 1, "CDataArrays", "d", "t", [1]], ["append", 7, "LSources", 4], ["append", 7, "LSources", 2],
-     ["create", 0, "CSections", "m", "t", []], ["set_link", 4, "RMetadata", 8], ["set_link", 7, "RMetadata", 8]],
+     ["create", 0, "CSections", "m", "t", []], ["set_link", 4, "RMetadata", 8], ["set_link", 7, "RMetadata", 8],
+     ["set_link", 6, "RMetadata", 8], ["set_link", 5, "RMetadata", 8],
+     ["referring", 8, "CSources"], ["referring", 8, "CDataArrays"], ["referring", 8, "CBlocks"],
+     ["set_link", 4, "RMetadata", None], ["referring", 8, "CSources"], ["reopen", False],
+     ["lookup", 0, "CSections", ["name", "m"]], ["referring", 1, "CSources"]],
     # nested sources reached through the source lists of an array, a tag and a multi-tag; parents asked on those objects,
     # before and after a reopen
     [["create", 0, "CBlocks", "B", "t", []], ["create", 1, "CSources", "a", "t", []], ["create", 2, "CSources", "b", "t", []],
@@ -48,7 +52,10 @@ def predicate(h):
     out = []
     for i, (op, res) in enumerate(zip(h["ops"], h["results"])):
         if op[0] in ("find", "parent", "referring") and res[0] == "toks" and len(res) > 2 and res[2] not in ("n/a", None):
-            if list(res[1]) != list(res[2]):
+            # the property fixes the ORDER of search results (breadth first); a referring list is a set ("exactly the
+            # inverse of the links"): its order is pinned by the model only
+            same = (sorted(map(str, res[1])) == sorted(map(str, res[2]))) if op[0] == "referring" else (list(res[1]) == list(res[2]))
+            if not same:
                 out.append(("%s does not reflect the stored structure" % op[0], i,
                             {"op": op, "returned": len(res[1]), "expected": len(res[2]),
                              "same_set": sorted(map(str, res[1])) == sorted(map(str, res[2]))}))
